@@ -13,16 +13,16 @@ CLAIMED = {
             "For each enumerated shape, every deterministic successor structure (grid-stochastic for two events), every real V, R, epsilon (gamma symbolic for S=2, grid for S=3): whenever the real VI / PI / semi-async loop reports convergence, z3 shows the documented a-priori bound on V*-V_pi (and on |values - V*| / |values - V_pi| under max_diff). Bounded symbolic verification.",
             TRUST, "DESIGN.md section 3, C01"),
     "C02": ("bounded symbolic execution of the real sweep/policy kernels under a z3-valued JAX trace; per-state SMT equality with an independent Bellman backup",
-            "For every enumerated shape/batch/device configuration, z3 shows that for ALL real-valued V, R, P, gamma and all successor tables the real pmapped sweep equals max_a sum_e P(R+gamma V[succ]) and the extracted policy is a greedy action from the action space; monotonicity, shift and contraction are shown on the code's own terms.",
+            "For every enumerated shape/batch/device configuration, z3 shows that for ALL real-valued V, R, P, gamma and all successor tables the real pmapped sweep equals max_a sum_e P(R+gamma V[succ]) and the extracted policy is a greedy action from the action space; monotonicity, shift and contraction are shown on the code's own terms; special input classes (300 actions, non-integer states, integer-typed initial values, a second sweep with another discount factor) and the real solve(k) returning a policy greedy for the values it returns are decided the same way.",
             TRUST, "DESIGN.md section 3, C02"),
     "C03": ("per-state SMT equalities of every per-iteration function of every solver with a partition-free reference over the (n_states, batch size, devices, offset) box + syntactic support check on the z3 terms; concrete multi-device runs of the real solvers",
-            "Two per-iteration functions that each equal the same reference for all inputs equal each other, so trajectories agree by induction: shown for the VI sweep, policy extraction, initial values and PI's evaluation step for ALL V, R, P, gamma, successor tables on every enumerated partition (1-2 devices quick, up to 8 thorough), with no padded-slot symbol in any real state's term and all outputs of length n_states; the five real solvers additionally run on the emulated devices (this leg found the no-padding multi-device crash, now fixed).",
+            "Two per-iteration functions that each equal the same reference for all inputs equal each other, so trajectories agree by induction: shown for the VI sweep, policy extraction, initial values and PI's evaluation step for ALL V, R, P, gamma, successor tables on every enumerated partition (1-2 devices quick, up to 8 thorough), with no padded-slot symbol in any real state's term and all outputs of length n_states; the span / max_diff measures equal their whole-vector definition on every partition; the five real solvers additionally run on the emulated devices (this leg found the no-padding multi-device crash, now fixed).",
             TRUST, "DESIGN.md section 3, C03"),
     "C04": ("real RVI solve(1) under the z3-valued trace from the real initial state and from any invariant-satisfying state; optimal gain/bias and policy gain as linear fixed-point unknowns; all unichain-aperiodic structures substituted",
             "For every enumerated unichain aperiodic structure and ALL rewards, values, epsilon: on the reported-convergence path |gain - g*| <= eps, g* - gain(policy) <= eps and the optimality-equation residual of the returned relative values is <= eps; the invariant gain == values[-1] is established by every iteration.",
             TRUST, "DESIGN.md section 3, C04"),
     "C05": ("real PI methods under the z3-valued trace / path explorer: evaluation step vs T_pi, evaluation accuracy with V_pi as linear unknowns, break-iff-no-component-changed with symbolic policies, greedy extraction, initial policy",
-            "For ALL policies, values, tables (enumerated shapes): one evaluation sweep is T_pi; a converged evaluation is within eps/gamma of V_pi (all 16 structures, max_eval_iter 1..3, reset on/off); solve stops early iff no component of any state's action vector changed (action dim 1 and 2); the returned policy is greedy for the returned values; the first evaluated policy is the problem's or the immediate-reward maximiser.",
+            "For ALL policies, values, tables (enumerated shapes): one evaluation sweep is T_pi; a converged evaluation is within eps/gamma of V_pi (all 16 structures, max_eval_iter 1..3, reset on/off); solve stops early iff no component of any state's action vector changed (action dim 1 and 2); the returned policy is greedy for the returned values (every evaluation call an independent symbol; linear variant with concrete probabilities for tolerance-type comparisons); the first evaluated policy is the problem's or the immediate-reward maximiser.",
             TRUST, "DESIGN.md section 3, C05"),
     "C06": ("real semi-async sweep under the z3-valued trace vs a block Gauss-Seidel reference over the real partition and permutation (PRNG stub enumerating permutations, both duplicate-scatter orders)",
             "For ALL V, R, P, gamma, successor tables on each enumerated (n_states<=4(5), batch size, devices, permutation): every state's new value is the Bellman backup of the carried values in the documented order; every state sits in exactly one non-padded slot; fixed points coincide with the synchronous backup's; seed determinism and fresh sub-keys are checked on the real PRNG.",
@@ -34,10 +34,10 @@ CLAIMED = {
             "For all five solvers, both routes, interruption points and chains within K<=4(5), f, m, sync/async: on every path where the interrupted calls stopped at their limits the resumed run's values, policy, iteration, gain, history and index equal those of one uninterrupted run without checkpointing, for ALL initial values and sweep results (uninterpreted sweep); checkpointing on/off never changes results.",
             TRUST + "; Orbax model validated on 48 schedules against the real library", "DESIGN.md section 3, C09"),
     "C10": ("state completeness by saving/restoring fresh symbols through the Orbax contract model; step selection over enumerated save histories; overrides; error paths and bitwise round trips on the real Orbax",
-            "Every documented runtime field comes back as the identical term through restore() and load_checkpoint() (known finding: VI-family solvers drop a stored policy), the default step is the latest and an explicit step is honoured for every save history (steps<=4, length<=3), overrides leave the state and the original directory untouched and govern later saves, documented errors are raised; 5 solvers x 4 shipped problems round-trip bitwise on the real Orbax.",
+            "Every documented runtime field comes back as the identical term through restore() and load_checkpoint() (known finding: VI-family solvers drop a stored policy), the default step is the latest and an explicit step is honoured for every save history (steps<=4, length<=3), overrides leave the state and the original directory untouched and govern later saves, documented errors are raised; 5 solvers x 4 shipped problems round-trip bitwise on the real Orbax, also in single precision (same process and fresh processes), with reused configuration objects / directories and restores interleaved with saves.",
             TRUST + "; configuration equality through YAML is concrete evaluation", "DESIGN.md section 3, C10"),
     "C12": ("real solve()/save() of all five solvers under the path explorer with the Orbax contract model; retained set, labels and contents checked per host path",
-            "For f in 1..3, m in 1..3, sync/async, call sequences with optional restore into the same/new directory and every convergence pattern: the retained steps are exactly the m most recent of {multiples of f} U {last iteration of each call}, each labelled with and containing the state of its iteration (as terms), config.yaml present iff reconstructible; f=0 creates nothing.",
+            "For f in 1..3, m in 1..3, sync/async, call sequences with optional restore into the same/new directory and every convergence pattern: the retained steps are exactly the m most recent of {multiples of f} U {last iteration of each call}, each labelled with and containing the state of its iteration (as terms), config.yaml present iff reconstructible; f=0 creates nothing; a sweep interrupted by KeyboardInterrupt leaves only completed, correctly labelled iterations on disk; concrete legs for non-finite values and instance/config combinations.",
             TRUST + "; Orbax model validated against the real library", "DESIGN.md section 3, C12"),
     "C13": ("real probability-table construction and random_event_probability executed on symbolic special-function values (contract stubs); linear/polynomial identities and sign conditions by z3",
             "For ALL values of the continuous parameters (through the special functions' contracts) and enumerated sizes: every event probability >= 0 and the sum over events == 1 for Forest, De Moor, Mirjalili; for Hendrix sum + P(characterised truncation region) == 1 and no mass is duplicated (the stated sum == 1 fails: known finding).",
@@ -52,7 +52,7 @@ CLAIMED = {
             "For all gamma in [0,1], epsilon>0, initial values and every convergence outcome pattern within k<=3(4) sweeps: threshold equals the documented formula, at most k sweeps, stop exactly at the first sweep below the documented measure, iteration == sweeps, values == U^n(V0), solve(k1);solve(k2) == solve(k1+k2). Bounded by k and S=2 (sweep content is C02).",
             TRUST, "DESIGN.md section 3, C08"),
     "C14": ("real transition and index function under the z3-valued trace on bounded symbolic state/action/event vectors; LIA queries per parameterisation",
-            "For each enumerated parameterisation of the four shipped problems, z3 shows for ALL listed states, actions and positive-probability events that every successor component is in range and that the real state_to_index returns the successor's row-major rank (no clipping); sizes, duplicates and row indices are checked on the concrete arrays.",
+            "For each enumerated parameterisation of the four shipped problems, z3 shows for ALL listed states, actions and positive-probability events that every successor component is in range and that the real state_to_index returns the successor's row-major rank (no clipping); sizes, duplicates and row indices are checked on the concrete arrays; the same for instances created after sibling instances in the same process and for bounds beyond 8 bits.",
             TRUST, "DESIGN.md section 3, C14"),
     "C15": ("differential symbolic execution: real transition() vs a scalar reference written from the docstrings, unbounded symbolic stock/demand/order integers and symbolic cost coefficients",
             "For each useful life / lead time / issuing policy, z3 shows for ALL non-negative integer states, actions, events and ALL real cost coefficients that successor and reward equal the documented scalar model and that units are conserved (issued/expired extracted from the real reward by unit cost vectors).",
